@@ -66,6 +66,11 @@ func (r Retry) Middleware(h message.HandlerFunc) message.HandlerFunc {
 				// MaxElapsedTime has passed: give up, don't retry without any back-off
 				return producedMessages, err
 			}
+			if ctx.Err() != nil {
+				// the context is already done: don't leave it to select's random choice
+				// between the done context and a back-off timer that is ready as well
+				return producedMessages, err
+			}
 			select {
 			case <-ctx.Done():
 				return producedMessages, err
